@@ -626,6 +626,22 @@ def tail_rule(ctx):
                 a1, a2 = _cmp_parts(v.left), _cmp_parts(v.right)
                 if a1 and a2:
                     inside = (nm, ns[0], {a1, a2})
+            # |x| <= B  is  (x >= -B) & (x <= B)
+            if isinstance(v, ast.Compare) and len(v.ops) == 1 and isinstance(v.ops[0], (ast.LtE, ast.Lt)):
+                l = v.left
+                absarg = None
+                if isinstance(l, ast.Call) and isinstance(l.func, ast.Attribute) and l.func.attr == "abs" and not l.args:
+                    absarg = l.func.value
+                elif isinstance(l, ast.Call) and norm_text(l.func) in ("torch.abs", "abs") and len(l.args) == 1:
+                    absarg = l.args[0]
+                if absarg is not None:
+                    b = v.comparators[0]
+                    opn = type(v.ops[0])
+                    lo = ast.Compare(left=absarg, ops=[ast.GtE() if opn is ast.LtE else ast.Gt()], comparators=[ast.UnaryOp(op=ast.USub(), operand=b)])
+                    hi = ast.Compare(left=absarg, ops=[opn()], comparators=[b])
+                    a1, a2 = _cmp_parts(ast.fix_missing_locations(lo)), _cmp_parts(ast.fix_missing_locations(hi))
+                    if a1 and a2:
+                        inside = (nm, ns[0], {a1, a2})
         if inside is None:
             res.undecide(outer.name, "inside mask is not a conjunction of two comparisons")
             continue
@@ -809,22 +825,91 @@ def square_rule(ctx):
     res = RuleResult("SPL-SQUARE", "every repository call site of linear/quadratic/cubic_spline passes the default box or left == bottom and right == top")
     names = {f[0].name for f in spline_funcs(p)[:3]}
     n = 0
+    from ..helperval import returned_expr
+
+    def dicts_of(e, fi, depth=0):
+        """the dict displays a `**e` may splat (None: cannot tell)"""
+        if depth > 4:
+            return None
+        if isinstance(e, ast.Dict):
+            return [e] if all(isinstance(k, ast.Constant) for k in e.keys) else None
+        if isinstance(e, ast.Call) and isinstance(e.func, ast.Name) and e.func.id == "dict" and not e.args and all(k.arg for k in e.keywords):
+            return [ast.Dict(keys=[ast.Constant(value=k.arg) for k in e.keywords], values=[k.value for k in e.keywords])]
+        if isinstance(e, ast.Name):
+            vals = [a.value for a in ast.walk(fi.node) if isinstance(a, ast.Assign) and any(isinstance(t, ast.Name) and t.id == e.id for t in a.targets)]
+            if not vals:
+                return None
+            out = []
+            for v in vals:
+                d = dicts_of(v, fi, depth + 1)
+                if d is None:
+                    return None
+                out.extend(d)
+            return out
+        if isinstance(e, ast.Attribute) and isinstance(e.value, ast.Name) and e.value.id == "self" and fi.cls is not None:
+            ai = p.attrs(fi.cls).get(e.attr)
+            if ai is None or ai.value is None or ai.func is None:
+                return None
+            return dicts_of(ai.value, ai.func, depth + 1)
+        if isinstance(e, ast.Call) and isinstance(e.func, (ast.Name, ast.Attribute)):
+            r2 = p.resolve_expr(fi.module, e.func)
+            if isinstance(r2, FuncInfo):
+                rv = returned_expr(r2.node)
+                if rv is not None:
+                    return dicts_of(rv, r2, depth + 1)
+        return None
+
+    def callees(c, fi):
+        """the spline functions a call may reach: the resolved callee, or what a local alias was bound to"""
+        r = p.resolve_expr(fi.module, c.func) if isinstance(c.func, (ast.Name, ast.Attribute)) else None
+        if isinstance(r, FuncInfo):
+            return [r]
+        if isinstance(c.func, ast.Name):
+            out = []
+            for a in ast.walk(fi.node):
+                if isinstance(a, ast.Assign) and any(isinstance(t, ast.Name) and t.id == c.func.id for t in a.targets) and isinstance(a.value, (ast.Name, ast.Attribute)):
+                    r2 = p.resolve_expr(fi.module, a.value)
+                    if isinstance(r2, FuncInfo):
+                        out.append(r2)
+            return out
+        return []
+
     for fi in p.all_functions():
         for c in ast.walk(fi.node):
             if not isinstance(c, ast.Call):
                 continue
-            r = p.resolve_expr(fi.module, c.func) if isinstance(c.func, (ast.Name, ast.Attribute)) else None
-            if not (isinstance(r, FuncInfo) and r.name in names):
+            rs = [r for r in callees(c, fi) if r.name in names]
+            if not rs:
                 continue
+            r = rs[0]
             n += 1
+            defaults = {a: (norm_text(d).replace(" ", "") if d is not None else None) for a, d in r.params()}
             kw = {k.arg: norm_text(k.value).replace(" ", "") for k in c.keywords if k.arg}
-            has_dict = any(k.arg is None for k in c.keywords)
-            box = [kw.get(b) for b in ("left", "right", "bottom", "top")]
-            if all(b is None for b in box):
-                res.ok("%s: %s(...) with the default (unit, square) box" % (fi.qualname, r.name))
-            elif box[0] == box[2] and box[1] == box[3] and box[0] is not None and box[1] is not None:
-                res.ok("%s: %s(...) with the square box (%s, %s)" % (fi.qualname, r.name, box[0], box[1]))
+            variants = [dict(kw)]
+            undecided = False
+            for k in c.keywords:
+                if k.arg is None:
+                    ds = dicts_of(k.value, fi)
+                    if ds is None:
+                        undecided = True
+                        break
+                    variants = [dict(v, **{kk.value: norm_text(vv).replace(" ", "") for kk, vv in zip(d.keys, d.values)}) for v in variants for d in (ds or [ast.Dict(keys=[], values=[])])]
+            if undecided:
+                res.undecide("%s: %s(**..)" % (fi.qualname, r.name), "cannot tell which box the splatted mapping carries")
+                continue
+            bad = None
+            for v in variants:
+                given = [v.get(b) for b in ("left", "right", "bottom", "top")]
+                if all(g is None for g in given):
+                    continue
+                box = [v.get(b, defaults.get(b)) for b in ("left", "right", "bottom", "top")]
+                if not (box[0] == box[2] and box[1] == box[3] and box[0] is not None and box[1] is not None):
+                    bad = box
+                    break
+            if bad is None:
+                res.ok("%s: %s(...) with the default or a square box" % (fi.qualname, r.name))
             else:
+                box = bad
                 res.fail(Finding("SPL-SQUARE", fi.module, fi.qualname, c, "%s is called with a non-square box (left=%s right=%s bottom=%s top=%s): it omits the box-scale term of the log-derivative and tests the inverse domain against (left, right)" % (r.name, box[0], box[1], box[2], box[3])))
     if n < 4:
         raise AnalysisIncomplete("SPL-SQUARE: %d call sites (< 4; the count on the pinned tree is larger, the floor leaves room for merged call sites confirmed by hand)" % n)
@@ -1216,6 +1301,24 @@ def root_rule(ctx):
                 # normalise to E > 0
                 if isinstance(c.ops[0], (ast.Lt, ast.LtE)):
                     a, b = b, a
+
+                def _peel(e):
+                    """shape-only wrappers around a side (the edges unsqueezed to meet all roots at once)"""
+                    for _ in range(6):
+                        if isinstance(e, ast.Call) and isinstance(e.func, ast.Attribute) and e.func.attr in ("unsqueeze", "view", "reshape", "expand", "expand_as", "contiguous", "float", "double", "to") and not (isinstance(e.func.value, ast.Name) and e.func.value.id in ("torch", "F")):
+                            e = e.func.value
+                        elif isinstance(e, ast.Call) and norm_text(e.func) == "torch.unsqueeze" and e.args:
+                            e = e.args[0]
+                        elif isinstance(e, ast.Subscript) and all((isinstance(x, ast.Constant) and x.value in (None, Ellipsis)) or (isinstance(x, ast.Slice) and x.lower is None and x.upper is None) for x in (e.slice.elts if isinstance(e.slice, ast.Tuple) else [e.slice])):
+                            e = e.value
+                        else:
+                            break
+                    return e
+
+                if not is_trig(a):
+                    a = _peel(a)
+                if not is_trig(b):
+                    b = _peel(b)
                 terms = signed_terms(a) + [(-sg, t) for sg, t in signed_terms(b)]
                 slack = []
                 for sg, t in terms:
